@@ -726,7 +726,7 @@ impl<'a> RefLoader<'a> {
 // Corpora.
 
 /// Paths needing every kind of escape, UTF-8, a subdirectory.
-pub const PATHS: &[&str] = &["a", "d/b", "a b", "c:d", "e$f", "ü", "gg/hh.o"];
+pub const PATHS: &[&str] = &["a", "d/b", "a b", "c:d", "e$f", "ü", "gg/hh.o", "w\\.\\x"];
 
 fn rotate_paths(offset: usize) -> impl FnMut() -> Expr {
     let mut n = offset;
@@ -805,7 +805,7 @@ pub fn corpus_attributes() -> Vec<ManifestSet> {
                 let mut x = code;
                 for a in attrs {
                     let val = match a {
-                        "command" => expr("run $in > $out # ${tag}"),
+                        "command" => expr("run $in > $out # ${t-a_g2}"),
                         "description" => expr("DESC $out"),
                         "depfile" => expr("$out.d"),
                         _ => expr("p1"),
@@ -816,7 +816,7 @@ pub fn corpus_attributes() -> Vec<ManifestSet> {
                             a.to_string(),
                             // Build-level values cannot use $in/$out.
                             match a {
-                                "command" => expr("brun $tag x"),
+                                "command" => expr("brun $t-a_g2 x"),
                                 "description" => expr("BDESC"),
                                 "depfile" => expr("b.d"),
                                 _ => expr("p2"),
@@ -836,11 +836,11 @@ pub fn corpus_attributes() -> Vec<ManifestSet> {
                 match rsp {
                     1 => {
                         rule_vars.push(("rspfile".into(), expr("$out.rsp")));
-                        rule_vars.push(("rspfile_content".into(), expr("$in $tag")));
+                        rule_vars.push(("rspfile_content".into(), expr("$in $t-a_g2")));
                     }
                     2 => {
                         build_vars.push(("rspfile".into(), expr("b.rsp")));
-                        build_vars.push(("rspfile_content".into(), expr("content $tag")));
+                        build_vars.push(("rspfile_content".into(), expr("content $t-a_g2.x")));
                     }
                     3 => {
                         rule_vars.push(("rspfile".into(), expr("$out.rsp")));
@@ -857,7 +857,7 @@ pub fn corpus_attributes() -> Vec<ManifestSet> {
                     ..Default::default()
                 };
                 let stmts = vec![
-                    Stmt::Binding("tag".into(), expr("T1")),
+                    Stmt::Binding("t-a_g2".into(), expr("T1")),
                     Stmt::Pool("p1".into(), Some(2)),
                     Stmt::Pool("p2".into(), None),
                     Stmt::Rule("r".into(), rule_vars),
@@ -952,7 +952,7 @@ pub fn corpus_sequences(max_len: usize) -> Vec<ManifestSet> {
 
 /// C11: binding slots around one build statement.  `assign[i]` selects the
 /// expression of slot i (0 = slot absent).
-pub const C11_EXPRS: &[&str] = &["L", "$x", "$y", "a$x", "${y}b", "$in", "$out"];
+pub const C11_EXPRS: &[&str] = &["L", "$x", "$y", "a$x", "${y}b", "", "$in", "$out"];
 pub const C11_SLOTS: usize = 11;
 
 #[derive(Debug, Clone, Copy, PartialEq, Eq)]
